@@ -7,7 +7,10 @@ mod e2;
 mod fault;
 mod fsmodel;
 mod proc;
+mod linz;
 mod props_e2;
+mod props_e3;
+mod sched;
 mod props_misc;
 mod engine;
 mod gen;
@@ -37,6 +40,11 @@ fn e2_part(prop: &'static str, tier: Tier) -> Part {
     Part { rule: p.rule.to_string(), run: Box::new(move |ctx, acc| props_e2::run_e2_part(ctx, acc, &p)) }
 }
 
+fn e3_part(prop: &'static str) -> Part {
+    let p = props_e3::part_for(prop);
+    Part { rule: p.rule.to_string(), run: Box::new(move |ctx, acc| props_e3::run_e3_part(ctx, acc, &p)) }
+}
+
 fn level_of(id: &str) -> &'static str {
     match id {
         "C03" | "C09" | "C10" | "C14" => "fault_enumeration",
@@ -46,9 +54,13 @@ fn level_of(id: &str) -> &'static str {
 
 fn parts(id: &'static str, tier: Tier, seed: u64) -> Vec<Part> {
     match id {
-        "C01" | "C02" | "C07" | "C13" | "C18" => vec![seq_part(id, tier, seed)],
-        "C06" | "C12" | "C20" => vec![seq_part(id, tier, seed), e2_part(id, tier)],
-        "C03" | "C09" | "C08" => vec![e2_part(id, tier)],
+        "C01" | "C02" | "C18" => vec![seq_part(id, tier, seed)],
+        "C07" | "C13" => vec![seq_part(id, tier, seed), e3_part(id)],
+        "C12" | "C20" => vec![seq_part(id, tier, seed), e2_part(id, tier)],
+        "C06" => vec![seq_part(id, tier, seed), e2_part(id, tier), e3_part(id)],
+        "C03" | "C09" => vec![e2_part(id, tier)],
+        "C08" => vec![e2_part(id, tier), e3_part(id)],
+        "C04" | "C05" | "C15" => vec![e3_part(id)],
         "C17" => vec![Part { rule: props_misc::C17_RULE.to_string(), run: Box::new(|ctx, acc| props_misc::run_c17(ctx, acc)) }],
         "C19" => vec![Part { rule: props_misc::C19_RULE.to_string(), run: Box::new(|ctx, acc| props_misc::run_c19(ctx, acc)) }],
         "C10" => vec![Part { rule: props_misc::C10_RULE.to_string(), run: Box::new(|ctx, acc| props_misc::run_c10(ctx, acc)) }],
@@ -124,6 +136,7 @@ fn replay_case(id: &'static str, engine: &str, case: serde_json::Value) -> R<Cas
         "E1" => props_seq::replay_seq(id, case),
         "E2" => props_e2::replay_e2(id, case),
         "E2F" => props_e2::replay_c14(case),
+        "E3" => props_e3::replay_e3(id, case),
         "C17" => props_misc::replay_c17(case),
         "C19" => props_misc::replay_c19(case),
         "C10" => props_misc::replay_c10(case),
